@@ -9,7 +9,7 @@ F15 = "uni chan=move_atomic N=8 M=1 k=1 origin=0 ; drive:0 ; send:1 send:2 send:
 F17 = "uni chan=crossbeam N=4 M=1 k=1 origin=0 ; send:1 send:2 send:3 send:4 ; drive:0 ; S " + "0 " * 19 + "1 " * 40 + "0 " * 6 + "1 " * 6 + "0 1 " * 6
 
 class C04(Prop):
-    pid = "C04"; prop_file = ["C04.v", "C04W.v", "C04Z.v"]
+    pid = "C04"; prop_file = ["C04.v", "C04W.v", "C04Z.v", "C04M.v"]
     rule = ("entry points: send, send_with, send_with_async (ready setter), reserve_slot + try_send_reserved / try_cancel_slot_reserve (movable atomic channel; the movable "
             "full-sync channel does not implement reservations); cases: 1-3 producers (send / send_with, 1-4 events each) against 1..MAX_STREAMS executor-driven streams (MAX_STREAMS in {1,2}) on the movable atomic and movable "
             "full-sync Uni channels, random bursty schedule then 60 round-robin rounds to quiescence; non-trivial = a context switch inside another thread's operation AND a Pending answer; "
